@@ -126,6 +126,14 @@ static void* g_sched_fake = nullptr;
 static std::vector<char*> g_stack_pool;
 static size_t g_stack_pool_size = 0;
 
+// Copies n bytes from a caller-supplied address with a plain memcpy (instrumented/intercepted by the sanitizers).
+// Not std::string::assign: libstdc++ silently skips the copy for a null source, which would hide exactly the
+// "null / too short buffer handed to MPI" errors this layer exists to expose.
+static void copy_in(std::string& dst, const void* src, size_t n) {
+    dst.resize(n);
+    if (n) memcpy(&dst[0], src, n);
+}
+
 World* cur() { return g_world; }
 int cur_rank() { return g_rank; }
 
@@ -668,7 +676,7 @@ void World::send(int ctx, int dst, int tag, const void* data, size_t nbytes, boo
     if (tag < 0) throw MpiError("MPI_ERR_TAG: invalid tag " + std::to_string(tag));
     Msg m;
     m.ctx = ctx; m.src = me; m.dst = dst; m.tag = tag;
-    if (nbytes) m.bytes.assign((const char*)data, nbytes);
+    copy_in(m.bytes, data, nbytes);
     m.gseq = ++gseq_;
     m.matched = std::make_shared<bool>(false);
     std::shared_ptr<bool> matched = m.matched;
@@ -839,7 +847,9 @@ World::Coll& World::coll_arrive(int ctx, int kind, int root, long nbytes, int* m
             os << "collective #" << k << " on context " << ctx << ": rank " << me << " (world " << g_rank << ") calls "
                << coll_name(kind) << "(root=" << root << ", bytes=" << nbytes << ") but another rank called "
                << coll_name(c.kind) << "(root=" << c.root << ", bytes=" << c.nbytes << ")";
-            fail("collective-mismatch", os.str());
+            // same collective, same root, different byte counts: the ranks disagree about the size of the buffer -
+            // in real MPI an erroneous call whose receivers read or write beyond what was transferred (memory-unsafe)
+            fail((c.kind == kind && c.root == root) ? "collective-count-mismatch" : "collective-mismatch", os.str());
         }
     }
     c.here[me] = 1;
@@ -871,7 +881,7 @@ void World::bcast(int ctx, int root, char* buf, size_t nbytes, bool known_size, 
     Coll& c = coll_arrive(ctx, COLL_BCAST, root, known_size ? (long)nbytes : -1, &me);
     Coll* pc = &c;
     if (me == root) {
-        if (ser) c.root_data = *ser; else if (nbytes) c.root_data.assign(buf, nbytes);
+        if (ser) c.root_data = *ser; else copy_in(c.root_data, buf, nbytes);
         c.root_dep = true;
         progress();
         bool waits = false;
@@ -891,7 +901,7 @@ void World::reduce(int ctx, int root, const char* in, char* out, size_t count, s
     size_t nb = count * esize;
     Coll& c = coll_arrive(ctx, all ? COLL_ALLREDUCE : COLL_REDUCE, all ? 0 : root, (long)nb, &me);
     Coll* pc = &c;
-    if (nb) c.contrib[me].assign(in, nb); // real read of count*esize bytes from the caller's buffer
+    copy_in(c.contrib[me], in, nb); // real read of count*esize bytes from the caller's buffer
     auto compute = [this, pc, nb, count, &combine]() {
         std::vector<int> order(pc->n);
         for (int i = 0; i < pc->n; i++) order[i] = i;
@@ -926,7 +936,7 @@ void World::gather(int ctx, int root, const char* in, size_t nbytes, std::vector
     int me;
     Coll& c = coll_arrive(ctx, all ? COLL_ALLGATHER : COLL_GATHER, all ? 0 : root, -1, &me);
     Coll* pc = &c;
-    if (nbytes) c.contrib[me].assign(in, nbytes);
+    copy_in(c.contrib[me], in, nbytes);
     if (all || me == root) {
         block_until([pc] { return pc->arrived == pc->n; }, EV_COLL_ARRIVE, ctx, c.kind);
         if (out) *out = c.contrib;
